@@ -198,7 +198,14 @@ class Hist:
             a, b = r.choice([("a]]", ">b"), ("]", "]>"), ("x", "y"), ("a]", "]>b"), ("&", "amp;")])
             n = len(self.shadow)
             self.shadow += ["text", "text"]
-            return ["ct:" + enc2(a), "ap:%s:%s" % (self.h(e), self.h(n)), "ct:" + enc2(b), "ap:%s:%s" % (self.h(e), self.h(n + 1))]
+            seq = ["ct:" + enc2(a), "ap:%s:%s" % (self.h(e), self.h(n)), "ct:" + enc2(b), "ap:%s:%s" % (self.h(e), self.h(n + 1))]
+            if r.random() < 0.5:
+                # ... and then normalize the element, or an ancestor of it
+                anc = e
+                while r.random() < 0.4 and self.par.get(anc, 0) != 0:
+                    anc = self.par[anc]
+                seq.append("nz:%s" % self.h(anc))
+            return seq
         if k < 0.88:
             # an attribute NODE of another element (same name, same value) handed to removeAttributeNode / setAttributeNode
             els = [h for h, kind in enumerate(self.shadow) if kind == "elem"]
@@ -289,6 +296,9 @@ class Hist:
         if k < 0.84:
             self.shadow.append("attr")
             return "ga:%s:%s" % (self.h(self.pick(("elem",))), enc2(r.choice(["x", "y", "id", "k"])))
+        if k < 0.86:
+            # Element.normalize: merges the runs of Text nodes below the element and in its attribute values
+            return "nz:%s" % self.h(self.pick(("elem",)))
         if k < 0.87:
             self.shadow.append(r.choice(["text", "elem", "comment", None]))
             return "ch:%s:%d" % (self.h(self.pick(containers)), r.choice([0, 0, 1, 2, 5]))
